@@ -49,6 +49,11 @@ CLAIMED = {
                      "*bytes.Buffer: must hold, any failure is a violation) and for multi-write carriers (chunked io.Reader, multi-write io.WriterTo), where TLC's interleaving "
                      "counterexample is replayed on the real code and reported as a known finding per carrier; text+delimiter codec pipelines are run on sync and queued channels "
                      "and the wire is parsed back into frames."),
+    "C13": dict(engine="bootstrap", design="3/C13", technique="TLA+ model checking (TLC) of Bootstrap.tla (listeners, accept loops, Connect, Shutdown, holder) + edge-cover replay and trace validation on the real bootstrap",
+                text="TLC checks C13_Final (context cancelled, no acceptor open, no loop left accepting, loops end with ErrServerClosed, every channel closed with exactly one "
+                     "transport close and one inactive) in every quiescent state after Shutdown, and that everything comes to rest (liveness), for programs of Listen/Async, "
+                     "Connect and Listener.Close with Shutdown at every point; schedules are replayed on the real bootstrap with a gated mock factory/acceptor/executor, "
+                     "recorded executions are validated by TLC; the unrepaired specification must still yield the leaked-acceptor counterexample, which is replayed each run."),
 }
 NA = {}
 for p in props:
@@ -78,6 +83,7 @@ engines = {}
 for pid, c in CLAIMED.items():
     engines.setdefault(c["engine"], []).append(pid)
 ENG = {
+    "bootstrap": ("spec/Bootstrap.tla + spec/TraceBootstrap.tla + harness/cmd/driver/boot.go", "TLA+ spec of the bootstrap; TLC exhaustive checking; replay + trace validation through the gate scheduler"),
     "pipeline": ("spec/Pipeline.tla + spec/TracePipeline.tla + harness/cmd/driver/pipe.go", "TLA+ reference model of the handler pipeline; TLC trace validation of programs run on the real pipeline"),
     "pipeline+channel": ("spec/Pipeline.tla + spec/Channel.tla + harness/cmd/driver/{pipe,chan}.go", "recover scopes as reference model + transport fault actions"),
     "pool": ("spec/Pool.tla + spec/TracePool.tla + harness/cmd/driver/pool.go", "TLA+ spec of the size-class pool; TLC exhaustive histories; replay + trace validation on the real pools"),
